@@ -172,6 +172,85 @@ theorem C01_line_bool (cfg : Cfg) (q : Char) (attr kw ty : Str) (p : CellProps) 
   refine ⟨C01_bool_roundtrip q attr p b, ?_⟩
   rw [lineValue_bool cfg kw ty _ b (by rw [hkw]; exact hk), hkw]
 
+/-! ### lines holding several numbers (COLOR r g b, SIZE w h, EXTENT …) -/
+
+/-- the integer tokens of a number list, after the `int` call-back -/
+def intToks (ty : Str) : List Int → List Tok
+  | [] => []
+  | n :: r => { lexTok ty (intStr n) with val := .int n } :: intToks ty r
+
+/-- the subtrees Lark builds for them -/
+def intTrees (ty : Str) : List Int → List R
+  | [] => []
+  | n :: r => .tree s%"int" none [.tok (lexTok ty (intStr n))] :: intTrees ty r
+
+theorem mainTL_intTrees (cfg : Cfg) (ty : Str) : (ns : List Int) →
+    mainTL cfg (intTrees ty ns) = .ok ((intToks ty ns).map .tok)
+  | [] => by simp [intTrees, intToks, mainTL]
+  | n :: r => by
+    have hcb : callback cfg s%"int" none [.tok (lexTok ty (intStr n))] = .ok (.tok { lexTok ty (intStr n) with val := .int n }) := by
+      simp [callback, first, nth, tokOf, lexTok, C01_int_roundtrip n, bind, Except.bind, pure, Except.pure]
+    simp only [intTrees, intToks, mainTL, mainT, bind, Except.bind, pure, Except.pure, hcb, mainTL_intTrees cfg ty r, List.map]
+
+theorem mapM_tokOf (ts : List Tok) : (ts.map R.tok).mapM tokOf = .ok ts := by
+  induction ts with
+  | nil => rfl
+  | cons t r ih => simp [List.mapM_cons, tokOf, ih, bind, Except.bind, pure, Except.pure]
+
+theorem intToks_vals (ty : Str) : (ns : List Int) → (intToks ty ns).map (·.val) = ns.map J.int
+  | [] => rfl
+  | n :: r => by simp [intToks, intToks_vals ty r]
+
+theorem intToks_length (ty : Str) : (ns : List Int) → (intToks ty ns).length = ns.length
+  | [] => rfl
+  | n :: r => by simp [intToks, intToks_length ty r]
+
+theorem flatten_toks : (ts : List Tok) → flatten (ts.map R.tok) = .ok ts
+  | [] => rfl
+  | t :: r => by simp [flatten, flatten_toks r, bind, Except.bind, pure, Except.pure]
+
+/-- the `attr` call-back on a key token and a tuple / list of two or more value tokens: the value is the list of the
+tokens' values, in order -/
+theorem attr_many (kw : Str) (tuple : Bool) (ts : List Tok) (hk : underscored (lower kw) = false) (hc : lower kw ≠ s%"config")
+    (hl : ts.length > 1) :
+    attr [.tok (lexTok s%"UNQUOTED_STRING" kw), .seq tuple (ts.map .tok)] =
+      .ok (.adict [(s%"__position__", .j (.dict [(s%"line", .null), (s%"column", .null), (s%"values", .list (ts.map posPair))])),
+                   (s%"__tokens__", .toks (lexTok s%"UNQUOTED_STRING" kw :: ts)),
+                   (lower kw, .j (.list (ts.map (·.val))))]) := by
+  have hne1 : lower kw ≠ s%"__position__" := by
+    intro e; rw [e] at hk; revert hk; decide
+  have hne2 : lower kw ≠ s%"__tokens__" := by
+    intro e; rw [e] at hk; revert hk; decide
+  have hlen : (ts.map R.tok).length > 1 := by simpa using hl
+  have hne : ts.map R.tok ≠ [] := by intro e; rw [e] at hlen; simp at hlen
+  have hpd : positionDict (lexTok s%"UNQUOTED_STRING" kw) (some (ts.map R.tok)) =
+      .ok [(s%"line", .null), (s%"column", .null), (s%"values", .list (ts.map posPair))] := by
+    unfold positionDict
+    cases hts : ts.map R.tok with
+    | nil => exact absurd hts hne
+    | cons a r => simp only [← hts, flatten_toks, bind, Except.bind, pure, Except.pure, lexTok]; rfl
+  simp only [lexTok] at hpd
+  simp only [attr, nth, tokOf, valLower, hk, isSeq, List.drop, List.length_cons, List.length_nil,
+    bind, Except.bind, pure, Except.pure, List.getElem?_cons_zero, Bool.false_eq_true, if_false, if_true,
+    mapM_tokOf, hlen, hc, lexTok]
+  rw [hpd]
+  simp [setAV, Ne.symm hne1, Ne.symm hne2, hne1, hne2]
+
+/-- **C01_line_ints** — a line of two or more integers (`COLOR 255 0 0`, `SIZE 400 300`, an integer `EXTENT` …) under any
+of the grammar's grouping rules that hand `attr` one tuple/list of the tokens: the value read back is the list of the
+integers, in order, for EVERY list of integers -/
+theorem C01_line_ints (cfg : Cfg) (kw ty : Str) (tuple : Bool) (ns : List Int) (hk : underscored (lower kw) = false)
+    (hc : lower kw ≠ s%"config") (hl : ns.length > 1) :
+    ∃ toks : List Tok, mainTL cfg (intTrees ty ns) = .ok (toks.map R.tok) ∧
+      ∃ kvs, attr [.tok (lexTok s%"UNQUOTED_STRING" kw), .seq tuple (toks.map R.tok)] = .ok (.adict kvs) ∧
+        lookupAV (lower kw) kvs = some (.j (.list (ns.map J.int))) := by
+  have hne1 : lower kw ≠ s%"__position__" := by
+    intro e; rw [e] at hk; revert hk; decide
+  have hne2 : lower kw ≠ s%"__tokens__" := by
+    intro e; rw [e] at hk; revert hk; decide
+  refine ⟨intToks ty ns, mainTL_intTrees cfg ty ns, _, attr_many kw tuple _ hk hc (by rw [intToks_length]; exact hl), ?_⟩
+  simp [lookupAV, hne1, hne2, Ne.symm hne1, Ne.symm hne2, intToks_vals]
+
 /-- the hypotheses are met: NAME "a b" in a LAYER, any spelling of the keyword -/
 example : lower s%"NaMe" = s%"name" ∧ underscored s%"name" = false ∧ ('"' ∉ s%"a b") := by decide
 
